@@ -546,3 +546,24 @@ func TestC01(t *testing.T) {
 		Stage[c01PatchCase]{Name: "patch", Gen: c01GenPatch, Run: c01RunPatch, N: pick(3000, 80000)},
 	)
 }
+
+// FuzzC01: coverage-guided search over (source, option byte); thorough tier only.
+func FuzzC01(f *testing.F) {
+	for _, s := range c01LoadCorpus() {
+		f.Add(s, byte(0))
+	}
+	for _, s := range c01Hostile {
+		f.Add("Patient.name"+s, byte(1))
+		f.Add(s+" 1", byte(3))
+	}
+	for _, s := range c01Terms {
+		f.Add(s+".abs()", byte(2))
+	}
+	f.Fuzz(func(t *testing.T, src string, o byte) {
+		if len(src) > 300 {
+			return
+		}
+		c := c01MutCase{Src: src, Opts: c01Opts{Compile: int(o) % 6, Vars: o&8 == 0, Time: o&16 != 0, Input: int(o>>5) % 3}}
+		fuzzCase(t, "C01", "mutants", c, c01RunMut)
+	})
+}
